@@ -47,6 +47,11 @@ class Rule:
         self.ctx = ctx
         self.id = rule_id
         self.stat = RuleStat(rule_id, description, min_instances=min_instances)
+        if rule_id in ctx.rules and ctx.rules[rule_id].description != description:
+            # two different rules under one id would silently replace each other's statistics (and their minimum counts)
+            from .repo import AnalysisError
+
+            raise AnalysisError(f"rule id {rule_id} is declared twice with different descriptions")
         ctx.rules[rule_id] = self.stat
 
     def instance(self, n=1, fn=None):
